@@ -19,6 +19,8 @@ RULE = ("family W: seeded (weight, value) sequences with weights from {0, tiny, 
         "reuse, on TimestampWeightedTally / EventBasedTimestampWeightedTally(+subscriber; register and notify); "
         "non-trivial(W) = >=1 zero and >=2 positive weights with unequal values; non-trivial(T) = >=1 repeated "
         "timestamp, closed, and >=1 observation after closing; distinct = canonical sequence hash")
+RULE += '; in a quarter of the subscriber-less cases the statistic is replaced by a pickle / deepcopy / copy of itself at a random point and after re-initialisations'
+RULE += '; 40% of the closed tallies are closed a second time, later'
 ASSUMPTIONS = ["weights/timestamps finite in [0, 1e9], values finite with |x| in {0} or [1e-6, 1e9]",
                "when the total weight is 0, mean/variance/stdev are undefined: only 'returns a float or NaN, never raises' is judged",
                "n/min/max of the timestamp variant and last_value() after closing are outside the statement and not judged",
@@ -80,7 +82,7 @@ def gen_case(rng, tier, i):
             case["sparse"] = rng.choice(["n", "min", "max", "weighted_sum", "weighted_mean", "weighted_variance_b", "weighted_variance_u",
                                          "weighted_stdev_b", "weighted_stdev_u"])
             case["ops"] = obs[:k] + [["q"], ["init"]] + obs[-k:] + [["q"], obs[0], ["q"], ["init"]] + obs[:k] + [["q"]]
-        return case
+        return _with_clones(rng, case)
     cls = rng.choice(["TimestampWeightedTally", "EventBasedTimestampWeightedTally", "EventBasedTimestampWeightedTally+sub",
                       "EventBasedTimestampWeightedTally+sub", "EventBasedTimestampWeightedTally+resub"])
     entry = rng.choice(["register", "notify"]) if cls.startswith("EventBased") else "register"
@@ -124,10 +126,39 @@ def gen_case(rng, tier, i):
                 ops.append(["after", t2, _value(rng, klass)])
                 if rng.random() < 0.3:
                     ops.append(["earlier", t - 1, _value(rng, klass)])
+            if rng.random() < 0.4:
+                # closed a second time, later (e.g. by hand and again by the end of the replication): ignored like any other
+                # observation after the close
+                ops.append(["end", t + (rng.choice([0, 1, 30]) if tkind != "bigint" else rng.choice([0, 1, 30]))])
         if rep == 0:
             ops.append(["init"])
             t = rng.choice([t, 0, t + 3]) if tkind != "bigint" else rng.choice([t, t + 3])
-    return {"fam": "T", "cls": cls, "entry": entry, "ops": ops}
+    return _with_clones(rng, {"fam": "T", "cls": cls, "entry": entry, "ops": ops})
+
+
+def _with_clones(rng, case):
+    """in a quarter of the cases without subscribers the statistic object is replaced by a copy of itself (pickle round trip,
+    deepcopy, copy) - also while still empty or just re-initialised - and the copy carries on"""
+    if "+" in case["cls"] or rng.random() >= 0.25:
+        return case
+    ops2 = []
+    for o in case["ops"]:
+        ops2.append(o)
+        if o[0] == "init" and rng.random() < 0.6:
+            ops2.append(["clone", rng.choice(["pickle", "deepcopy", "copy"])])
+    ops2.insert(0 if rng.random() < 0.5 else rng.randint(0, len(ops2)), ["clone", rng.choice(["pickle", "pickle", "deepcopy", "copy"])])
+    case["ops"] = ops2
+    return case
+
+
+def _clone(ctx, t, how, where):
+    import copy, pickle
+    ctx.count("statistic_replaced_by_a_copy_of_itself")
+    try:
+        return pickle.loads(pickle.dumps(t)) if how == "pickle" else copy.deepcopy(t) if how == "deepcopy" else copy.copy(t)
+    except Exception as e:
+        ctx.viol(f"copy-raises:{how}:{type(e).__name__}", {**where, "exc": repr(e)})
+        return None
 
 
 def _foreign(name):
@@ -240,6 +271,11 @@ def run_case(case, ctx):
                 pos += 1
         elif op[0] == "q":
             pass
+        elif op[0] == "clone":
+            t = _clone(ctx, t, op[1], where)
+            if t is None:
+                return
+            continue
         else:
             w, v = {"negw": (-1.0, 2.0), "nanw": (math.nan, 2.0), "nanv": (1.0, math.nan), "strw": ("x", 2.0), "strv": (1.0, "x"),
                     "hugev": (1.0, 10 ** 400), "hugew": (10 ** 400, 2.0)}[op[1]]      # ints beyond the float range are no observations
@@ -305,6 +341,11 @@ def _run_T(case, ctx):
     for opi, op in enumerate(case["ops"]):
         where = {"op_index": opi, "op": op, "cls": case["cls"], "entry": case["entry"]}
         k = op[0]
+        if k == "clone":
+            t = _clone(ctx, t, op[1], where)
+            if t is None:
+                return
+            continue
         if k == "init":
             # the baseline carries the time stamp of the next observation of the script (so the script stays valid)
             nxt = next((o[1] for o in case["ops"][opi + 1:] if o[0] in ("obs", "end", "after")), None)
